@@ -22,7 +22,7 @@ for a in sys.argv[3:]:
     for l in letters:
         first_of[l] = d
 NOT_MEASURED = set(os.environ.get("NOT_MEASURED", "").split())
-WAVE = {"A": 1, "B": 1, "C": 2, "D": 2, "E": 3, "F": 3, "G": 4, "H": 4, "I": 5, "J": 6, "K": 7}
+WAVE = {"A": 1, "B": 1, "C": 2, "D": 2, "E": 3, "F": 3, "G": 4, "H": 4, "I": 5, "J": 6, "K": 7, "L": 8}
 
 
 def load(d, prop, letter):
@@ -36,8 +36,8 @@ def one_line(notes):
     for line in notes.splitlines():
         l = line.strip(" #*-`")
         if len(l) > 30 and not l.lower().startswith(("notes", "property")):
-            l = re.sub(r"^(C\d\d\s*)?[/ ]*\s*(seed\s+)?[A-K]\b\s*(\((PROV-\w+)\))?\s*[-:—]+\s*", "", l, flags=re.I)
-            l = re.sub(r"^C\d\d\s*(seed|/)\s*[A-K]\s*[-:—]+\s*", "", l, flags=re.I)
+            l = re.sub(r"^(C\d\d\s*)?[/ ]*\s*(seed\s+)?[A-L]\b\s*(\((PROV-\w+)\))?\s*[-:—]+\s*", "", l, flags=re.I)
+            l = re.sub(r"^C\d\d\s*(seed|/)\s*[A-L]\s*[-:—]+\s*", "", l, flags=re.I)
             return re.sub(r"\s+", " ", l).replace("|", "/")[:170]
     return ""
 
@@ -47,7 +47,7 @@ for prop in sorted(os.listdir(seeds)):
     pdir = os.path.join(seeds, prop)
     if not os.path.isdir(pdir):
         continue
-    for letter in "ABCDEFGHIJK":
+    for letter in "ABCDEFGHIJKL":
         patch = os.path.join(pdir, letter + ".patch")
         if not os.path.exists(patch):
             continue
